@@ -34,6 +34,7 @@ Definition bytes_eqb (a b : bytes) : bool :=
   match bytes_cmp a b with Eq => true | _ => false end.
 
 Definition is_empty (a : bytes) : bool := match a with [] => true | _ => false end.
+Definition is_empty_list {A : Type} (a : list A) : bool := match a with [] => true | _ => false end.
 
 (* strings.HasPrefix(s, p) *)
 Fixpoint has_prefix (p s : bytes) : bool :=
@@ -92,10 +93,12 @@ Arguments ins {V}. Arguments lookup {V}. Arguments ins_all {V}. Arguments find_l
 (* ---------------------------------------------------------------- users and password hashing *)
 
 (* appctlpb.User: the three fields the code looks at + the rest (quotas, allowPrivateIP, ...) kept opaque *)
+Record quota := mkQuota { q_days : Z; q_mb : Z }.
 Record user := mkUser {
   u_name : option bytes;
   u_pw : option bytes;
   u_hpw : option bytes;
+  u_quotas : list quota;                    (* getter values of each quota; also part of u_rest *)
   u_rest : bytes }.
 
 Definition uname (u : user) : bytes := getb (u_name u).
@@ -113,6 +116,7 @@ Section Hash.
         mkUser (u_name u)
                (if keep then Some pw else Some [])
                (Some (H (pw ++ 0%N :: uname u)))
+               (u_quotas u)
                (u_rest u)
     end.
 
@@ -131,15 +135,27 @@ Record port_binding := mkPB {
   pb_range : option bytes }.
 
 (* appctlpb.ServerConfig; sub-messages the merge only copies are opaque byte strings *)
+(* sub-messages the merge only copies: [*_raw] is the deterministic encoding, the other fields are what the
+   validators read.  Library answers (time.ParseDuration, net.ParseCIDR, net.ParseIP, strings.ToLower,
+   trafficpattern.Validate of apis/trafficpattern) are recorded next to the text they were asked about. *)
+Record adv_rec := mkAdv { adv_raw : bytes; adv_interval : bytes; adv_interval_ns : option Z }.
+Record auth_rec := mkAuth { au_raw : bytes; au_user : bytes; au_pw : bytes }.
+Record proxy_rec := mkProxy { px_name : bytes; px_proto : Z; px_host : bytes; px_port : Z; px_auth_user : bytes; px_auth_pw : bytes }.
+Record rule_rec := mkRule { ru_ip_ok : list bool; ru_domains : list bytes; ru_action : Z; ru_proxies : list bytes }.
+Record egress_rec := mkEgress { eg_raw : bytes; eg_proxies : list proxy_rec; eg_rules : list rule_rec }.
+Record host_rec := mkHost { h_domain : bytes; h_norm : bytes; h_ip_ok : bool }.
+Record dns_rec := mkDns { dns_raw : bytes; dns_hosts : list host_rec }.
+Record tp_rec := mkTp { tp_raw : bytes; tp_ok : bool }.
+
 Record server_cfg := mkServer {
   s_ports : option (list port_binding);     (* None = nil slice *)
   s_users : list user;
-  s_adv : option bytes;
+  s_adv : option adv_rec;
   s_log : option Z;
   s_mtu : option Z;
-  s_egress : option bytes;
-  s_dns : option bytes;
-  s_tp : option bytes }.
+  s_egress : option egress_rec;
+  s_dns : option dns_rec;
+  s_tp : option tp_rec }.
 
 (* mergeServerConfig(dst, src) *)
 Definition merge_server (dst src : server_cfg) : server_cfg :=
@@ -158,10 +174,21 @@ Definition store_server (H : bytes -> bytes) (c : server_cfg) : server_cfg :=
 
 (* ---------------------------------------------------------------- client configuration *)
 
+Record server_ep := mkEp {
+  se_ip : bytes; se_ip_ok : bool;            (* GetIpAddress, net.ParseIP(..) != nil *)
+  se_domain : bytes; se_domain_is_ip : bool; (* GetDomainName, net.ParseIP(..) != nil *)
+  se_bindings : list port_binding }.
+Record dialer_rec := mkDialer { dl_proto : Z; dl_host : bytes; dl_port : Z; dl_has_auth : bool; dl_auth_user : bytes; dl_auth_pw : bytes }.
 Record profile := mkProfile {
   p_name : option bytes;
   p_user : option user;
-  p_rest : bytes }.
+  p_servers : list server_ep;
+  p_mtu : option Z;
+  p_mux : option Z;                          (* Multiplexing != nil && Multiplexing.Level != nil *)
+  p_hs : option Z;
+  p_tp : option tp_rec;
+  p_dialer : option dialer_rec;
+  p_rest : bytes }.                          (* encoding of everything but name and user *)
 Definition pname (p : profile) : bytes := getb (p_name p).
 
 Record client_cfg := mkClient {
@@ -169,12 +196,12 @@ Record client_cfg := mkClient {
   c_active : option bytes;
   c_rpc : option Z;
   c_socks5 : option Z;
-  c_adv : option bytes;
+  c_adv : option adv_rec;
   c_log : option Z;
   c_s5lan : option bool;
   c_http : option Z;
   c_httplan : option bool;
-  c_auth : option (list bytes) }.          (* None = nil slice *)
+  c_auth : option (list auth_rec) }.       (* None = nil slice *)
 
 (* mergeClientConfigByProfile(dst, src) *)
 Definition merge_client (dst src : client_cfg) : client_cfg :=
@@ -191,7 +218,8 @@ Definition merge_client (dst src : client_cfg) : client_cfg :=
 
 (* StoreClientConfig: profile.User = HashUserPassword(profile.GetUser(), true) *)
 Definition store_profile (H : bytes -> bytes) (p : profile) : profile :=
-  mkProfile (p_name p) (match p_user p with Some u => Some (hash_user H true u) | None => None end) (p_rest p).
+  mkProfile (p_name p) (match p_user p with Some u => Some (hash_user H true u) | None => None end)
+            (p_servers p) (p_mtu p) (p_mux p) (p_hs p) (p_tp p) (p_dialer p) (p_rest p).
 Definition store_client (H : bytes -> bytes) (c : client_cfg) : client_cfg :=
   mkClient (map (store_profile H) (c_profiles c)) (c_active c) (c_rpc c) (c_socks5 c) (c_adv c) (c_log c)
            (c_s5lan c) (c_http c) (c_httplan c) (c_auth c).
@@ -276,6 +304,195 @@ Definition flat_binding (b : port_binding) : option Z :=
 
 Definition flat_ok (bs : list port_binding) : bool :=
   forallb (fun b => match flat_binding b with Some _ => true | None => false end) bs.
+
+(* ---------------------------------------------------------------- validators
+   Each returns 0 when the configuration is accepted, else the number of the first failing group of checks
+   (the numbers are the ones the driver maps the Go error texts to). *)
+
+Definition blen (s : bytes) : Z := Z.of_nat (length s).
+Definition zin (lo hi v : Z) : bool := Z.leb lo v && Z.leb v hi.
+
+Fixpoint first_err {A : Type} (f : A -> N) (l : list A) : N :=
+  match l with
+  | [] => 0%N
+  | x :: t => let e := f x in if N.eqb e 0 then first_err f t else e
+  end.
+
+Fixpoint mem_bytes (x : bytes) (l : list bytes) : bool :=
+  match l with [] => false | y :: t => bytes_eqb x y || mem_bytes x t end.
+
+Fixpoint last_byte (s : bytes) : option N :=
+  match s with [] => None | [b] => Some b | _ :: t => last_byte t end.
+Definition begins_with_dot (s : bytes) : bool := match s with 46%N :: _ => true | _ => false end.
+Definition ends_with_dot (s : bytes) : bool := match last_byte s with Some 46%N => true | _ => false end.
+
+Definition validate_quota (q : quota) : N :=
+  if Z.leb (q_days q) 0 then 25%N
+  else if Z.ltb C20_MaxQuotaDays (q_days q) then 26%N
+  else if Z.leb (q_mb q) 0 then 27%N
+  else 0%N.
+
+(* appctlcommon.ValidateServerConfigSingleUser *)
+Definition validate_user (u : user) : N :=
+  if is_empty (uname u) then 21%N
+  else if is_empty (getb (u_pw u)) && is_empty (getb (u_hpw u)) then 22%N
+  else if Z.ltb C20_MaxUserNameLen (blen (uname u)) then 23%N
+  else if negb (is_empty (getb (u_pw u))) && Z.ltb C20_MaxPasswordLen (blen (getb (u_pw u))) then 24%N
+  else first_err validate_quota (u_quotas u).
+
+Definition getports (o : option (list port_binding)) : list port_binding :=
+  match o with Some l => l | None => [] end.
+
+Definition mtu_valid (m : Z) : bool := Z.eqb m 0 || zin C20_MtuMin C20_MtuMax m.
+
+Definition interval_valid (a : option adv_rec) : bool :=
+  match a with
+  | None => true
+  | Some r => is_empty (adv_interval r) ||
+              match adv_interval_ns r with
+              | None => false
+              | Some d => Z.leb C20_MinMetricsIntervalNs d
+              end
+  end.
+
+Definition proxy_fields_valid (p : proxy_rec) : bool :=
+  negb (Z.eqb (px_proto p) C20_UnknownProxyProtocol) &&
+  negb (is_empty (px_host p)) &&
+  zin C20_PortMin C20_PortMax (px_port p) &&
+  Bool.eqb (is_empty (px_auth_user p)) (is_empty (px_auth_pw p)).
+
+(* the proxies loop with its usedProxyNames map: Some names iff no error *)
+Fixpoint validate_proxies (used : list bytes) (ps : list proxy_rec) : option (list bytes) :=
+  match ps with
+  | [] => Some used
+  | p :: t =>
+      if is_empty (px_name p) then None
+      else if mem_bytes (px_name p) used then None
+      else if proxy_fields_valid p then validate_proxies (px_name p :: used) t
+      else None
+  end.
+
+Definition domain_valid (d : bytes) : bool :=
+  negb (is_empty d) && negb (begins_with_dot d) && negb (ends_with_dot d).
+
+Definition rule_valid (used : list bytes) (r : rule_rec) : bool :=
+  forallb (fun b => b) (ru_ip_ok r) &&
+  forallb domain_valid (ru_domains r) &&
+  (if Z.eqb (ru_action r) C20_EgressActionProxy
+   then negb (is_empty_list (ru_proxies r)) && forallb (fun n => mem_bytes n used) (ru_proxies r)
+   else is_empty_list (ru_proxies r)).
+
+Fixpoint nodup_bytes (l : list bytes) : bool :=
+  match l with [] => true | x :: t => negb (mem_bytes x t) && nodup_bytes t end.
+
+(* appctlcommon.TransformDNSHosts (the verdict does not depend on the map iteration order) *)
+Definition dns_valid (d : option dns_rec) : bool :=
+  match d with
+  | None => true
+  | Some r =>
+      forallb (fun h => negb (begins_with_dot (h_domain h)) && negb (ends_with_dot (h_domain h)) &&
+                        negb (is_empty (h_norm h)) && h_ip_ok h) (dns_hosts r) &&
+      nodup_bytes (map h_norm (dns_hosts r))
+  end.
+
+Definition tp_valid (t : option tp_rec) : bool := match t with None => true | Some r => tp_ok r end.
+
+(* appctl.ValidateServerConfigPatch *)
+Definition validate_server_patch (c : server_cfg) : N :=
+  if negb (flat_ok (getports (s_ports c))) then 1%N
+  else let eu := first_err validate_user (s_users c) in
+  if negb (N.eqb eu 0) then eu
+  else if negb (mtu_valid (getz (s_mtu c))) then 3%N
+  else match validate_proxies [] (match s_egress c with Some e => eg_proxies e | None => [] end) with
+       | None => 4%N
+       | Some used =>
+           if negb (forallb (rule_valid used) (match s_egress c with Some e => eg_rules e | None => [] end)) then 5%N
+           else if negb (dns_valid (s_dns c)) then 6%N
+           else if negb (interval_valid (s_adv c)) then 7%N
+           else if negb (tp_valid (s_tp c)) then 8%N
+           else 0%N
+       end.
+
+(* proto.Equal(config, &pb.ServerConfig{}) *)
+Definition server_is_empty (c : server_cfg) : bool :=
+  is_empty_list (getports (s_ports c)) && is_empty_list (s_users c) &&
+  match s_adv c, s_log c, s_mtu c, s_egress c, s_dns c, s_tp c with
+  | None, None, None, None, None, None => true
+  | _, _, _, _, _, _ => false
+  end.
+
+(* appctl.ValidateFullServerConfig *)
+Definition validate_full_server (c : server_cfg) : N :=
+  let e := validate_server_patch c in
+  if negb (N.eqb e 0) then e
+  else if server_is_empty c then 9%N
+  else if is_empty_list (getports (s_ports c)) then 10%N
+  else 0%N.
+
+Definition server_ep_check (s : server_ep) : N :=
+  if is_empty (se_ip s) && is_empty (se_domain s) then 38%N
+  else if negb (is_empty (se_ip s)) && negb (se_ip_ok s) then 39%N
+  else if is_empty_list (se_bindings s) then 40%N
+  else if negb (flat_ok (se_bindings s)) then 41%N
+  else 0%N.
+
+Definition dialer_valid (d : option dialer_rec) : bool :=
+  match d with
+  | None => true
+  | Some r => Z.eqb (dl_proto r) C20_Socks5ProxyProtocol && negb (is_empty (dl_host r)) &&
+              zin C20_PortMin C20_PortMax (dl_port r) &&
+              (negb (dl_has_auth r) || (negb (is_empty (dl_auth_user r)) && negb (is_empty (dl_auth_pw r))))
+  end.
+
+Definition empty_user : user := mkUser None None None [] [].
+Definition puser (p : profile) : user := match p_user p with Some u => u | None => empty_user end.
+
+(* appctlcommon.ValidateClientConfigSingleProfile *)
+Definition validate_profile (p : profile) : N :=
+  let u := puser p in
+  if is_empty (pname p) then 31%N
+  else if is_empty (uname u) then 32%N
+  else if is_empty (getb (u_pw u)) && is_empty (getb (u_hpw u)) then 33%N
+  else if Z.ltb C20_MaxUserNameLen (blen (uname u)) then 34%N
+  else if negb (is_empty (getb (u_pw u))) && Z.ltb C20_MaxPasswordLen (blen (getb (u_pw u))) then 35%N
+  else if negb (is_empty_list (u_quotas u)) then 36%N
+  else if is_empty_list (p_servers p) then 37%N
+  else let es := first_err server_ep_check (p_servers p) in
+  if negb (N.eqb es 0) then es
+  else if negb (mtu_valid (getz (p_mtu p))) then 42%N
+  else if negb (tp_valid (p_tp p)) then 43%N
+  else if negb (dialer_valid (p_dialer p)) then 44%N
+  else 0%N.
+
+Definition getauth (o : option (list auth_rec)) : list auth_rec := match o with Some l => l | None => [] end.
+
+(* appctl.ValidateClientConfigPatch *)
+Definition validate_client_patch (c : client_cfg) : N :=
+  let ep := first_err validate_profile (c_profiles c) in
+  if negb (N.eqb ep 0) then ep
+  else if negb (forallb (fun a => negb (is_empty (au_user a)) && negb (is_empty (au_pw a))) (getauth (c_auth c))) then 51%N
+  else if negb (interval_valid (c_adv c)) then 52%N
+  else 0%N.
+
+(* appctl.ValidateFullClientConfig *)
+Definition validate_full_client (c : client_cfg) : N :=
+  let e := validate_client_patch c in
+  let rpc := getz (c_rpc c) in
+  let s5 := getz (c_socks5 c) in
+  if negb (N.eqb e 0) then e
+  else if is_empty_list (c_profiles c) then 53%N
+  else if is_empty (getb (c_active c)) then 54%N
+  else if negb (existsb (fun p => bytes_eqb (pname p) (getb (c_active c))) (c_profiles c)) then 55%N
+  else if negb (zin 0 C20_PortMax rpc) then 56%N
+  else if negb (zin C20_PortMin C20_PortMax s5) then 57%N
+  else if Z.eqb rpc s5 then 58%N
+  else match c_http c with
+       | None => 0%N
+       | Some h => if negb (zin C20_PortMin C20_PortMax h) then 59%N
+                   else if Z.eqb h rpc then 60%N
+                   else if Z.eqb h s5 then 61%N
+                   else 0%N
+       end.
 
 (* ---------------------------------------------------------------- share links *)
 
@@ -423,6 +640,68 @@ Definition simple_link (u : surl_lib) : outcome sprofile :=
                        bs)
              end
     end.
+
+(* ---------------------------------------------------------------- mierus:// export (ClientProfileToMultiURLs)
+   The exporter's own decisions for one server of a profile: which host text, which query values.  What the
+   URL library does with them (escaping, base64, decimal printing, enum names) is outside the model. *)
+
+Record link_fields := mkLF {
+  lf_user : bytes; lf_pw : bytes;
+  lf_host : bytes; lf_host_is_ip : bool;
+  lf_profile : bytes;
+  lf_mtu : option Z; lf_mux : option Z; lf_hs : option Z;
+  lf_tp : option bytes;                       (* the traffic pattern's encoding, when the pattern is not nil *)
+  lf_ports : list (bytes + Z);                (* range text, or port number to be printed in decimal *)
+  lf_protos : list Z }.
+
+Definition export_port (b : port_binding) : bytes + Z :=
+  if negb (is_empty (getb (pb_range b))) then inl (getb (pb_range b)) else inr (getz (pb_port b)).
+
+(* None = an error is returned *)
+Definition export_server (p : profile) (s : server_ep) : option link_fields :=
+  let u := puser p in
+  if is_empty (pname p) || is_empty (uname u) || is_empty (getb (u_pw u)) then None
+  else match (if negb (is_empty (se_domain s)) then Some (se_domain s, se_domain_is_ip s)
+              else if negb (is_empty (se_ip s)) then Some (se_ip s, se_ip_ok s)
+              else None) with
+       | None => None
+       | Some (host, isip) =>
+           if is_empty_list (se_bindings s) then None
+           else Some (mkLF (uname u) (getb (u_pw u)) host isip (pname p) (p_mtu p) (p_mux p) (p_hs p)
+                           (match p_tp p with Some t => Some (tp_raw t) | None => None end)
+                           (map export_port (se_bindings s))
+                           (map (fun b => getz (pb_proto b)) (se_bindings s)))
+       end.
+
+(* what the importer's library calls answer on the exported link, provided the library steps are faithful
+   (url.String then url.Parse returns the same user, password, host and query values in order; base64 and
+   protobuf decode what they encoded; the enum-name tables invert each other): [itoa], [b64], [mux_name],
+   [hs_name] stand for strconv.Itoa, base64 of the encoding, and Enum.String() *)
+Definition link_as_parsed (itoa : Z -> bytes) (b64 : bytes -> bytes) (mux_name hs_name : Z -> bytes)
+    (f : link_fields) : surl_lib :=
+  mkSurl (mkUrl true s_mierus []) true (lf_user f) (lf_pw f) (lf_host f) (lf_host_is_ip f) true
+         (lf_profile f)
+         (match lf_mtu f with Some m => itoa m | None => [] end)
+         (match lf_mux f with Some v => mux_name v | None => [] end) (getz (lf_mux f))
+         (match lf_hs f with Some v => hs_name v | None => [] end) (getz (lf_hs f))
+         (match lf_tp f with Some raw => b64 raw | None => [] end) 0%N
+         (map (fun x => match x with inl r => r | inr n => itoa n end) (lf_ports f))
+         (lf_protos f).
+
+(* the part of a profile a mierus:// link carries, in the importer's vocabulary *)
+Definition binding_view (b : port_binding) : url_port * Z :=
+  (match export_port b with
+   | inl r => match parse_port_range r with Some (a, z) => URange a z | None => UPort 0%Z end
+   | inr n => UPort n
+   end, getz (pb_proto b)).
+
+Definition simple_view (p : profile) (s : server_ep) (f : link_fields) : sprofile :=
+  mkSprofile (pname p) (uname (puser p)) (getb (u_pw (puser p)))
+             (if lf_host_is_ip f then Some (lf_host f) else None)
+             (if lf_host_is_ip f then None else Some (lf_host f))
+             (p_mtu p) (p_mux p) (p_hs p)
+             (match p_tp p with Some t => negb (is_empty (tp_raw t)) | None => false end)
+             (map binding_view (se_bindings s)).
 
 (* toy instance of H for the executable runner: tag 256 (not a byte) in front of the pre-image *)
 Definition toy_hash (x : bytes) : bytes := 256%N :: x.
